@@ -3,7 +3,7 @@ import BreezyVerif.Model.C52
 /-
 Line protocol of C52:
 
-  chain <force T|F> <targets b,t,c,l,s,u comma list> <tree T|F> <dirty T|F> <branch u|b|r> <repo n|o|s>
+  chain <variant: tagCheck T|F> <force T|F> <targets b,t,c,l,s,u comma list> <tree T|F> <dirty T|F> <branch u|b|r> <repo n|o|s>
         <sharedAbove T|F> <bindKnown T|F> <synced T|F> <local tags n:v,…|-> <tags at the bind location n:v,…|->
     -> per step `<ok|E:kind>:<tree><dirty><branch><repo><bindKnown>:<treestate none|kept|clean>:<tip o|m>:<tags>`
        joined by a space; tip `o` = the tip at the start, `m` = the tip of the branch at the bind location;
@@ -61,12 +61,12 @@ def showLoc (l : Loc) : String :=
 def showTags (k : Nat) (ts : Tags) : String :=
   joinList ((List.range k).map fun n => match lookupTag ts n with | some v => toString v | none => "-")
 
-def steps (force : Bool) (k : Nat) : List Target → Loc → List String
+def steps (v : Variant) (force : Bool) (k : Nat) : List Target → Loc → List String
   | [], _ => []
   | t :: ts, l =>
-    let r := reconfigure t force l
+    let r := reconfigure v t force l
     let tip := if r.1.tip == 1 then "o" else "m"
-    s!"{showErr r.2}:{showLoc r.1}:{showTreeState r.1}:{tip}:{showTags k r.1.tags}" :: steps force k ts r.1
+    s!"{showErr r.2}:{showLoc r.1}:{showTreeState r.1}:{tip}:{showTags k r.1.tags}" :: steps v force k ts r.1
 
 def showStep : Step → String
   | .repoCopy => "repo" | .b5to6 => "b5to6" | .b6to7 => "b6to7" | .b7to8 => "b7to8"
@@ -79,17 +79,17 @@ def showPasses (ps : List (List Step)) : String :=
   if ps.isEmpty then "-" else "/".intercalate (ps.map fun p => if p.isEmpty then "0" else "+".intercalate (p.map showStep))
 
 def handle : List String → String
-  | ["chain", force, ts, tree, dirty, br, repo, above, known, synced, ltags, rtags] =>
-    match parseBool force, (splitList ts).mapM parseTarget, parseBool tree, parseBool dirty, parseBK br, parseRK repo,
+  | ["chain", tc, force, ts, tree, dirty, br, repo, above, known, synced, ltags, rtags] =>
+    match parseBool tc, parseBool force, (splitList ts).mapM parseTarget, parseBool tree, parseBool dirty, parseBK br, parseRK repo,
           parseBool above, parseBool known, parseBool synced, parseTags ltags, parseTags rtags with
-    | some force, some ts, some tree, some dirty, some br, some repo, some above, some known, some synced,
+    | some tc, some force, some ts, some tree, some dirty, some br, some repo, some above, some known, some synced,
       some ltags, some rtags =>
       let l : Loc := { tree := tree, dirty := dirty, branch := br, repo := repo, sharedAbove := above, bindKnown := known,
                        format := 0, tip := 1, hist := 1, tags := ltags, treeCode := 0,
                        refTip := if synced then 1 else 2, refHist := if synced then 1 else 2, refTags := rtags }
       let k := ((ltags ++ rtags).map (·.1 + 1)).foldl max 0
-      " ".intercalate (steps force k ts l)
-    | _, _, _, _, _, _, _, _, _, _, _ => "bad-op"
+      " ".intercalate (steps ⟨tc⟩ force k ts l)
+    | _, _, _, _, _, _, _, _, _, _, _, _ => "bad-op"
   | ["upgrade", r, b, t, tr, tb, tt, n, pm] =>
     match optNat r, optNat b, optNat t, tr.toNat?, tb.toNat?, tt.toNat?, n.toNat?, pm.toNat? with
     | some r, some b, some t, some tr, some tb, some tt, some n, some pm =>
